@@ -45,20 +45,87 @@ Definition start_state (c : case) : st :=
 
 Definition region_count (s : st) : nat := cnt in_region (thr s).
 
+(* Replay with stutter tolerance for pure reads.  The model is driven by the
+   implementation's thread choices and must perform the same operations with
+   the same results, except that
+   - an implementation read (Load / Len) that the model's thread is not about
+     to perform is accepted when its result is what the model state holds
+     (an extra read in the code changes nothing), and
+   - a model read the implementation does not show is performed silently
+     before the thread's next visible operation (a read removed from the code).
+   Writes, CASes, pushes, pops and Invoke boundaries always have to match. *)
+(* a failing CAS writes nothing: it is a read too *)
+Definition is_read_label (l : label) : bool :=
+  match l with LLoad _ | LLen _ | LCas _ _ false => true | _ => false end.
+Definition read_consistent (s : st) (l : label) : bool :=
+  match l with
+  | LLoad v => status_eqb (status_ s) v
+  | LLen n => Nat.eqb (length (q s)) n
+  | LCas o _ false => negb (status_eqb (status_ s) o)
+  | _ => false
+  end.
+
+Definition orelse {A} (a : option A) (b : unit -> option A) : option A :=
+  match a with Some x => Some x | None => b tt end.
+
+(* trailing silent reads of threads that the implementation finished without them *)
+Fixpoint settle (fuel : nat) (c : config) (s : st) : st :=
+  match fuel with 0 => s | S f =>
+  let fix first (i : nat) (l : list pc) : option st :=
+      match l with
+      | [] => None
+      | _ :: l' => match step c s i with
+                   | Some (s', lb) => if is_read_label lb then Some s' else first (S i) l'
+                   | None => first (S i) l'
+                   end
+      end in
+  match first 0 (thr s) with Some s' => settle f c s' | None => s end
+  end.
+
+(* [final] is what the end state must satisfy: it is part of the search, so a
+   choice between "extra implementation read" and "silent model read" that
+   leads to the wrong end state is revised *)
+Fixpoint replay (fuel : nat) (c : config) (final : st -> bool) (s : st) (sched : list nat) (ls : list label) : option st :=
+  match fuel with 0 => None | S f =>
+  match sched, ls with
+  | [], [] => if final s then Some s
+              else let s' := settle (length (thr s) + 3) c s in if final s' then Some s' else None
+  | i :: sched', l :: ls' =>
+    let skip_impl_read := fun _ : unit =>
+      if is_read_label l && read_consistent s l then replay f c final s sched' ls' else None in
+    match step c s i with
+    | None => skip_impl_read tt
+    | Some (s', l') =>
+      if label_eqb l l' then orelse (replay f c final s' sched' ls') skip_impl_read
+      else orelse (skip_impl_read tt)                                   (* extra implementation read *)
+                  (fun _ => if is_read_label l' then replay f c final s' sched ls else None)  (* silent model read *)
+    end
+  | _, _ => None
+  end end.
+
 (* correspondence: the model, driven by the same thread choices, performs the
    same operations with the same results and ends in the same observable state *)
-Definition corr (c : case) : bool :=
-  if negb (c_replay c) then true else
+Definition obs_matches (s : st) (o : obs) : bool :=
+  status_eqb (status_ s) (o_status o) &&
+  Nat.eqb (length (q s)) (o_qlen o) &&
+  list_eqb Nat.eqb (delivered s) (o_delivered o) &&
+  list_eqb Nat.eqb (dropped s) (o_dropped o) &&
+  list_eqb Nat.eqb (pushed s) (o_pushed o) &&
+  Bool.eqb (quiescent s) (o_terminal o).
+
+Definition corr_exact (c : case) : bool :=
   match run_sched {| bound := c_bound c |} (start_state c) (c_sched c) with
   | None => false
-  | Some (s, ls) =>
-      list_eqb label_eqb ls (c_labels c) &&
-      status_eqb (status_ s) (o_status (c_obs c)) &&
-      Nat.eqb (length (q s)) (o_qlen (c_obs c)) &&
-      list_eqb Nat.eqb (delivered s) (o_delivered (c_obs c)) &&
-      list_eqb Nat.eqb (dropped s) (o_dropped (c_obs c)) &&
-      list_eqb Nat.eqb (pushed s) (o_pushed (c_obs c)) &&
-      Bool.eqb (quiescent s) (o_terminal (c_obs c))
+  | Some (s, ls) => list_eqb label_eqb ls (c_labels c) && obs_matches s (c_obs c)
+  end.
+
+Definition corr (c : case) : bool :=
+  if negb (c_replay c) then true else
+  if corr_exact c then true else
+  match replay (4 * length (c_sched c) + 10) {| bound := c_bound c |} (fun s => obs_matches s (c_obs c))
+               (start_state c) (c_sched c) (c_labels c) with
+  | None => false
+  | Some _ => true
   end.
 
 (* every message of the clients' programs *)
@@ -141,7 +208,9 @@ Fixpoint tags (bnd : nat) (ls : list label) (prev_empty_pop : bool) : list nat :
 Fixpoint dedup (l : list nat) : list nat :=
   match l with [] => [] | x :: l' => if existsb (Nat.eqb x) l' then dedup l' else x :: dedup l' end.
 
-Definition branches (c : case) : list nat := dedup (tags (c_bound c) (c_labels c) false).
+(* tag 9: the replay needed the read tolerance (the code's reads no longer line up with the model's) *)
+Definition branches (c : case) : list nat :=
+  dedup (tags (c_bound c) (c_labels c) false) ++ (if c_replay c && negb (corr_exact c) && corr c then [9] else []).
 
 Fixpoint failing {A} (f : A -> bool) (i : nat) (l : list A) : list nat :=
   match l with [] => [] | a :: l' => (if f a then [] else [i]) ++ failing f (S i) l' end.
